@@ -4,6 +4,12 @@ import json, os, sys
 ROOT = os.path.abspath(os.path.join(os.path.dirname(__file__), '..'))
 sys.path.insert(0, os.path.join(ROOT, 'tools'))
 import props as P, manifest_meta as M
+import glob, importlib.util
+for _p in sorted(glob.glob(os.path.join(ROOT, 'tools', 'claims.d', '*.py'))):
+    _s = importlib.util.spec_from_file_location('claims_' + os.path.basename(_p)[:-3], _p)
+    _m = importlib.util.module_from_spec(_s); _s.loader.exec_module(_m)
+    M.CLAIMS.update(getattr(_m, 'CLAIMS', {}))
+    M.HOOK_COMMITS += getattr(_m, 'HOOK_COMMITS', [])
 
 ids = [json.loads(l)['id'] for l in open(os.path.join(ROOT, 'properties.jsonl'))]
 checks, na = [], []
